@@ -6,6 +6,7 @@ use crate::gen::*;
 use crate::outcome::*;
 use crate::sched::Schedule;
 use crate::suite::*;
+use crate::c02_pool::*;
 use crate::typed::{self, TypedSet};
 use proptest::prelude::*;
 use serde_json::{json, Value};
@@ -273,41 +274,6 @@ fn length_sweeps(c: &Corpus, chk: &mut Check, tier: Tier) {
             }
         }
     }
-}
-
-struct Pool {
-    frames: Vec<(String, Vec<u8>, String)>, // (message name, frame, Debug of the individual decode)
-}
-
-fn build_pool(c: &Corpus, ep: &dyn Ep, seed: u64, per_entry: usize, only_names: Option<&[&str]>) -> Pool {
-    let forced = BTreeMap::new();
-    let mut frames = Vec::new();
-    for e in c.entries.iter().filter(|e| e.ns == ep.ns() && e.dir == ep.dir()) {
-        if c.skip_entry.contains(&e.label()) || c.skip_write.contains(&e.label()) {
-            continue;
-        }
-        if let Some(n) = only_names {
-            if !n.contains(&e.name.as_str()) {
-                continue;
-            }
-        }
-        for k in 0..per_entry {
-            let s = vcommon::mix(seed, vcommon::fnv(e.label().as_bytes()) ^ (k as u64));
-            let tape: Vec<u8> = if k == 0 { vec![] } else { (0..128u64).map(|i| (vcommon::mix(s, i) >> 24) as u8).collect() };
-            if let Ok(enc) = c.encode(e, &tape, &forced) {
-                if enc.frame.len() > 20_000 {
-                    continue;
-                }
-                // only frames the reader accepts and rewrites identically belong to a stream of *written* messages
-                if let Outcome::Ok { debug, consumed, rewritten: Ok(rw) } = ep.read_one(&enc.frame) {
-                    if consumed == enc.frame.len() {
-                        frames.push((e.name.clone(), rw, debug));
-                    }
-                }
-            }
-        }
-    }
-    Pool { frames }
 }
 
 fn streams(c: &Corpus, chk: &mut Check, tier: Tier) {
